@@ -358,37 +358,51 @@ def rule_line_reset(ctx):
                                 colf = x[2]
             if colf is None:
                 continue
-            semis = []
-            for mm in [m] + f.closures_of(m):
-                for pt, t in mm.calls():
-                    c = t.get('callee')
-                    if c and c['name'] in BYTE_SOURCES and len(t['args']) == 2:
-                        bs = byteset(mm, mm.expr_of_operand(t['args'][1]), f.consts)
-                        if bs is not TOP and ord(';') in bs:
-                            semis.append((mm, pt, t))
-                    elif c and c.get('local') and f.body(c.get('resolved') or c['path']) is not None:
-                        # a crate-local helper that writes ';' into the buffer it receives: the call is the write
-                        hb = f.body(c.get('resolved') or c['path'])
-                        if hb.key != m.key and hb.d['kind'] != 'Closure':
-                            for hm in [hb] + f.closures_of(hb):
-                                for hpt, ht in hm.calls():
-                                    hc = ht.get('callee')
-                                    if hc and hc['name'] in BYTE_SOURCES and len(ht['args']) == 2:
-                                        bs = byteset(hm, hm.expr_of_operand(ht['args'][1]), f.consts)
-                                        if bs is not TOP and ord(';') in bs and (mm, pt, t) not in semis:
-                                            semis.append((mm, pt, t))
-            resets = [pt for pt, s in m.points() if s['k'] == 'assign' and s['p']['pr'] and isinstance(s['p']['pr'][-1], dict)
-                      and s['p']['pr'][-1].get('n') == colf and s['r']['k'] == 'use' and s['r']['o']['k'] == 'const'
-                      and s['r']['o'].get('int') == 0]
-            for mm, pt, t in semis:
-                # the write may sit in a closure (for_each): use the point where the closure is consumed in the parent
-                ppt = pt
-                if mm is not m:
-                    ppt = None
-                    for qpt, qt in m.calls():
-                        if any(x[0] == 'agg' and x[1] == 'closure' and x[2] == mm.path for a in qt['args'] for x in walk(m.expr_of_operand(a))):
-                            ppt = qpt
-                ok = ppt is not None and any(m.postdominates(rp, ppt) for rp in resets)
+            def direct_semis(x):
+                """writes of ';' made by x or its closures: (body, point, terminator, point in x where it takes effect)"""
+                out = []
+                for mm in [x] + f.closures_of(x):
+                    for pt, t in mm.calls():
+                        c = t.get('callee')
+                        if c and c['name'] in BYTE_SOURCES and len(t['args']) == 2:
+                            bs = byteset(mm, mm.expr_of_operand(t['args'][1]), f.consts)
+                            if bs is not TOP and ord(';') in bs:
+                                ppt = pt
+                                if mm is not x:
+                                    # the write sits in a closure (for_each): use the point where the closure is consumed in the parent
+                                    ppt = None
+                                    for qpt, qt in x.calls():
+                                        if any(y[0] == 'agg' and y[1] == 'closure' and y[2] == mm.path for a in qt['args']
+                                               for y in walk(x.expr_of_operand(a))):
+                                            ppt = qpt
+                                out.append((mm, pt, t, ppt))
+                return out
+
+            def resets_of(x):
+                return [pt for pt, s_ in x.points() if s_['k'] == 'assign' and s_['p']['pr'] and isinstance(s_['p']['pr'][-1], dict)
+                        and s_['p']['pr'][-1].get('n') == colf and s_['r']['k'] == 'use' and s_['r']['o']['k'] == 'const'
+                        and s_['r']['o'].get('int') == 0]
+
+            def reset_follows(x, ppt):
+                return ppt is not None and any(x.postdominates(rp, ppt) for rp in resets_of(x))
+            todo = [(m, mm, pt, t, ppt) for mm, pt, t, ppt in direct_semis(m)]
+            for pt, t in [(pt, t) for mm in [m] + f.closures_of(m) for pt, t in mm.calls() if mm is m]:
+                c = t.get('callee')
+                hb = f.body(c.get('resolved') or c['path']) if c and c.get('local') else None
+                if hb is None or hb.key == m.key or hb.d['kind'] == 'Closure':
+                    continue
+                hs = direct_semis(hb)
+                if not hs:
+                    continue
+                if all(reset_follows(hb, hppt) for _, _, _, hppt in hs):
+                    # the helper starts the line and resets the column state itself
+                    for hm, hpt, ht, hppt in hs:
+                        r.site('%s: writing ";" is followed by resetting the column state `%s`' % (hb.path, colf), ht['s'], 'ok')
+                else:
+                    # a crate-local helper that writes ';' into the buffer it receives: the call is the write
+                    todo.append((m, m, pt, t, pt))
+            for x, mm, pt, t, ppt in todo:
+                ok = reset_follows(x, ppt)
                 r.site('%s: writing ";" is followed by resetting the column state `%s`' % (m.path, colf), t['s'], 'ok' if ok else 'violation')
                 if not ok:
                     r.violation('%s:encoder' % m.path, t['s'], m.path,
@@ -570,8 +584,8 @@ def rule_enc_omit(ctx):
     def ol_fields_of(e):
         return {x[2] for x in walk(e) if x[0] == 'field' and x[3] == ol['path'] and x[2] in plain}
 
-    for m in encs:
-        adt = m.d.get('impl_adt')
+    def analyse(m, adt, whole):
+        """whole: the body is a helper that is handed the OriginalLocation, all of it is the mapped region"""
 
         def state_fields_of(e):
             return {x[2] for x in walk(e) if x[0] == 'field' and x[3] == adt}
@@ -644,10 +658,14 @@ def rule_enc_omit(ctx):
                     some_t = [tb for v, tb in t['targets'] if v == 1] or ([t['otherwise']] if all(v == 0 for v, _ in t['targets']) else [])
                     for st_ in some_t:
                         mapped |= {x for x in range(len(m.blocks)) if x == st_ or st_ in m.dom().get(x, set())}
+        if whole:
+            mapped = set(range(len(m.blocks)))
         if not mapped:
+            if helpers_with_ol:
+                return              # the mapped part lives in the helper(s) that receive the location
             r.violation('%s:mapped-region' % m.path, m.span(), m.path, 'cannot find the test of `mapping.original` in the encoder '
                         '(unrecognised idiom, fail-closed)', reason='unrecognised-idiom')
-            continue
+            return
         wm = writes & mapped
         for S, (F, blocks) in sorted(enc_sites.items()):
             blocked = blocks | eq_edges.get(S, set())
@@ -665,6 +683,26 @@ def rule_enc_omit(ctx):
                             'a mapped segment can be written on a path that neither encodes `%s` against `%s` nor has compared them: a '
                             'shortcut emits constant digits for a field that may have changed (e.g. the "same file, next line" form '
                             'used across a file switch), so positions are attributed to the wrong %s' % (F, S, F))
+    for enc in encs:
+        adt_ = enc.d.get('impl_adt')
+        # private helpers of the encoder that are handed the original location (methods or free functions, two levels deep)
+        helpers_with_ol, frontier, seen_h = [], [enc], {enc.key}
+        for _ in range(2):
+            nxt = []
+            for x in frontier:
+                for pt, t in x.calls():
+                    c = t.get('callee')
+                    hb = f.body(c.get('resolved') or c['path']) if c else None
+                    if hb is None or hb.key in seen_h or hb.d['kind'] == 'Closure' or hb.promoted is not None:
+                        continue
+                    seen_h.add(hb.key)
+                    nxt.append(hb)
+                    if any(ol['path'] in hb.local_ty(i) for i in range(1, hb.arg_count + 1)):
+                        helpers_with_ol.append(hb)
+            frontier = nxt
+        analyse(enc, adt_, False)
+        for hb in helpers_with_ol:
+            analyse(hb, adt_, True)
     r.check_floor()
     return r
 
